@@ -154,6 +154,19 @@ def insertInSlot (t : Raw κ ν) (p : Nat) (k : κ) (v : ν) : Raw κ ν :=
   let t' := t.setSlot p (.full (status hashOf k) k v)
   { t' with len := t.len + 1, free := if (t.slot p).isDead then t.free else t.free - 1 }
 
+/-- the same function reading `len`, `free` and the old slot before the slot is written, so that the
+slot array is uniquely referenced when it is updated (used by compiled code through `@[csimp]`) -/
+def insertInSlotFast (t : Raw κ ν) (p : Nat) (k : κ) (v : ν) : Raw κ ν :=
+  let dead := (t.slot p).isDead
+  match t with
+  | ⟨slots, len, free⟩ =>
+    ⟨wr slots p (.full (status hashOf k) k v), len + 1, if dead then free else free - 1⟩
+
+@[csimp] theorem insertInSlot_eq_fast : @insertInSlot = @insertInSlotFast := by
+  funext κ ν hashOf t p k v
+  cases t
+  rfl
+
 /-- `insert` on a present key (repair D4): the value is replaced in place -/
 def replaceAt (t : Raw κ ν) (i : Nat) (v : ν) : Raw κ ν :=
   match t.slot i with
@@ -175,6 +188,17 @@ def removeAtSlot (t : Raw κ ν) (i : Nat) : Raw κ ν :=
   let nextFree := (t.slot ((i + 1) % t.cap)).isFree
   let t' := t.setSlot i (if nextFree then .free else .dead)
   { t' with len := t.len - 1, free := if nextFree then t.free + 1 else t.free }
+
+def removeAtSlotFast (t : Raw κ ν) (i : Nat) : Raw κ ν :=
+  let nextFree := (t.slot ((i + 1) % t.cap)).isFree
+  match t with
+  | ⟨slots, len, free⟩ =>
+    ⟨wr slots i (if nextFree then .free else .dead), len - 1, if nextFree then free + 1 else free⟩
+
+@[csimp] theorem removeAtSlot_eq_fast : @removeAtSlot = @removeAtSlotFast := by
+  funext κ ν t i
+  cases t
+  rfl
 
 def remove (t : Raw κ ν) (k : κ) : Out (Raw κ ν × Option ν) :=
   match find hashOf dbg t k with
